@@ -13,12 +13,12 @@ import (
 
 func init() {
 	register(&Property{
-		ID:        "C24",
-		Roots:     []string{"snap/naming"},
-		Technique: "constant and table agreement between Go (go/constant, regexp/syntax, SSA gates of the validators) and C (clang -E -dM macros, clang AST of the named validator functions: folded comparison constants, the whitelist regexp literal, the shape of the hand-written scanners)",
+		ID:          "C24",
+		Roots:       []string{"snap/naming"},
+		Technique:   "constant and table agreement between Go (go/constant, regexp/syntax, SSA gates of the validators) and C (clang -E -dM macros, clang AST of the named validator functions: folded comparison constants, the whitelist regexp literal, the shape of the hand-written scanners)",
 		Explanation: "Structural necessary conditions for 'all components agree on valid names' (equivalence of the hand-written C scanners with the Go rules as languages is not decided): (R1) limits agree: Go ValidateSnap refuses len<2 and len>40, the instance-key regexp allows 1..10, C has SNAP_NAME_LEN==40, SNAP_INSTANCE_KEY_LEN==10, SNAP_INSTANCE_LEN==40+1+10, and both C validators (snap-confine, snap-update-ns) compare their counters with exactly these bounds as inclusive maxima (n<2, n>40, i==0, i>10) and size their buffers accordingly; (R2) the security-tag regexp of snap-confine uses, for the instance key, the app name and the hook name, the same sub-expressions as the Go validInstanceKey, ValidApp and validHook regexps (compared after removing capture groups), and compares captured names with the expected ones by length AND content; (R3) the Go validators answer nil only across their documented gates: ValidateInstance across ValidateSnap(store name) and validInstanceKey.MatchString(key) (the ASCII-only regexp, not a Unicode-aware hand test), ValidateSnap across the two length tests and isValidName, isValidName across almostValidName and the dash rules; (R4) both C name scanners add every consumed run (letters, digits, single dash) to the length they bound.",
-		NotDecided: "that the hand-written C scanners accept exactly the language of the Go regexp-plus-dash rules; security-tag composition for components; socket and alias names.",
-		Run:        runC24,
+		NotDecided:  "that the hand-written C scanners accept exactly the language of the Go regexp-plus-dash rules; security-tag composition for components; socket and alias names.",
+		Run:         runC24,
 	})
 }
 
